@@ -1234,4 +1234,105 @@ theorem call_core (T C : Nat) (hT : 6 ≤ T) (fuel qn0 dn Nc Dc : Nat) (hdn4 : 4
     rw [e1] at t7
     rw [t5, hNc2]; exact t7
 
+theorem norm_div (a s D : Nat) (ha : 2 ≤ a) (hnorm : B ^ (a + s) ≤ 2 * D) : B ^ a ≤ 2 * (D / B ^ s) := by
+  obtain ⟨sl, rfl⟩ : ∃ sl, a = sl + 2 := ⟨a - 2, by omega⟩
+  exact half_norm sl D (B ^ s) (Bpow_pos _) (by rw [← pow_add, Nat.add_comm]; exact hnorm)
+
+/-- MAIN INDUCTION: every call of the repaired mpn_dc_divappr_q inside its domain keeps `CallSpec` -/
+theorem dcDivapprF_spec (T C : Nat) (hT : 6 ≤ T) (hC : 3 ≤ C) :
+    ∀ (fuel nn dn0 N D0 : Nat), 3 ≤ nn - dn0 → 4 ≤ dn0 → D0 < B ^ dn0 → B ^ dn0 ≤ 2 * D0 → N < B ^ nn →
+      2 * dn0 + 2 ≤ B → nn - dn0 < fuel → CallSpec nn dn0 N D0 (dcDivapprF true T C sbLeaf fuel nn dn0 N D0)
+  | 0, _, _, _, _, _, _, _, _, _, _, hf => by omega
+  | fuel + 1, nn, dn0, N, D0, hq3, hd4, hD0, hnorm0, hN, hsz, hf => by
+    have hB := B_pos
+    obtain ⟨qn0, hqn0⟩ : ∃ qn0, qn0 = nn - dn0 := ⟨_, rfl⟩
+    have hnn : nn = dn0 + qn0 := by omega
+    subst hnn
+    -- resolve the cut
+    obtain ⟨dn, hdn⟩ : ∃ dn, dn = if qn0 + 1 < dn0 then qn0 + 1 else dn0 := ⟨_, rfl⟩
+    have hdn4 : 4 ≤ dn := by rw [hdn]; split <;> omega
+    have hdnq : dn ≤ qn0 + 1 := by rw [hdn]; split <;> omega
+    have hdnle : dn ≤ dn0 := by rw [hdn]; split <;> omega
+    obtain ⟨s, hs⟩ : ∃ s, dn0 = dn + s := ⟨dn0 - dn, by omega⟩
+    have hPs := Bpow_pos s
+    have hDc : D0 / B ^ s < B ^ dn := by
+      rw [Nat.div_lt_iff_lt_mul hPs, ← pow_add, ← hs]; exact hD0
+    have hnormc : B ^ dn ≤ 2 * (D0 / B ^ s) := norm_div dn s D0 (by omega) (by rw [← hs]; exact hnorm0)
+    have hNc : N / B ^ s < B ^ (dn + qn0) := by
+      rw [Nat.div_lt_iff_lt_mul hPs, ← pow_add]
+      have : dn + qn0 + s = dn0 + qn0 := by omega
+      rw [this]; exact hN
+    -- the recursive calls
+    have hrec : RecOK C (dn - 1) dn (D0 / B ^ s) (fun a b c d => dcDivapprF true T C sbLeaf fuel a b c d) := by
+      intro m Nsub hCm hmn hNsub hpre
+      have ih := dcDivapprF_spec T C hT hC fuel (dn + m) dn Nsub (D0 / B ^ s) (by omega) hdn4 hDc hnormc hNsub (by omega)
+        (by omega)
+      unfold CallSpec at ih
+      simp only [Nat.add_sub_cancel_left] at ih
+      rw [if_pos (by omega)] at ih
+      obtain ⟨i1, i2, i3, i4, i5, i6, i7⟩ := ih
+      obtain ⟨j1, j2⟩ := i7 (by omega) hpre
+      rw [j1, Nat.zero_mul, Nat.zero_add] at i5
+      exact ⟨i1, i2, i4, i5, j2⟩
+    -- unfold one level
+    have hcore := call_core T C hT fuel qn0 dn (N / B ^ s) (D0 / B ^ s) hdn4 hdnq hDc hnormc hNc (by omega) hrec
+      _ _ _ _ rfl rfl rfl rfl _ rfl _ rfl
+    have e1 : dn0 + qn0 - dn0 = qn0 := by omega
+    have ecall : dcDivapprF true T C sbLeaf (fuel + 1) (dn0 + qn0) dn0 N D0 =
+        dcTail true C sbLeaf (fun a b c d => dcDivapprF true T C sbLeaf fuel a b c d)
+          (redLoop T dn (D0 / B ^ s) qn0 qn0
+            (N / B ^ s % B ^ qn0 + B ^ qn0 *
+              (if (if N / B ^ s / B ^ qn0 ≥ D0 / B ^ s then 1 else 0) ≠ 0 then N / B ^ s / B ^ qn0 - D0 / B ^ s
+               else N / B ^ s / B ^ qn0)) 0 true).1 dn
+          (redLoop T dn (D0 / B ^ s) qn0 qn0
+            (N / B ^ s % B ^ qn0 + B ^ qn0 *
+              (if (if N / B ^ s / B ^ qn0 ≥ D0 / B ^ s then 1 else 0) ≠ 0 then N / B ^ s / B ^ qn0 - D0 / B ^ s
+               else N / B ^ s / B ^ qn0)) 0 true).2.1 (D0 / B ^ s)
+          (redLoop T dn (D0 / B ^ s) qn0 qn0
+            (N / B ^ s % B ^ qn0 + B ^ qn0 *
+              (if (if N / B ^ s / B ^ qn0 ≥ D0 / B ^ s then 1 else 0) ≠ 0 then N / B ^ s / B ^ qn0 - D0 / B ^ s
+               else N / B ^ s / B ^ qn0)) 0 true).2.2.1
+          (if N / B ^ s / B ^ qn0 ≥ D0 / B ^ s then 1 else 0) qn0
+          ((redLoop T dn (D0 / B ^ s) qn0 qn0
+            (N / B ^ s % B ^ qn0 + B ^ qn0 *
+              (if (if N / B ^ s / B ^ qn0 ≥ D0 / B ^ s then 1 else 0) ≠ 0 then N / B ^ s / B ^ qn0 - D0 / B ^ s
+               else N / B ^ s / B ^ qn0)) 0 true).2.2.2 &&
+            decide (dn = (redLoop T dn (D0 / B ^ s) qn0 qn0
+              (N / B ^ s % B ^ qn0 + B ^ qn0 *
+                (if (if N / B ^ s / B ^ qn0 ≥ D0 / B ^ s then 1 else 0) ≠ 0 then N / B ^ s / B ^ qn0 - D0 / B ^ s
+                 else N / B ^ s / B ^ qn0)) 0 true).1 + 1) &&
+            decide (2 ≤ (redLoop T dn (D0 / B ^ s) qn0 qn0
+              (N / B ^ s % B ^ qn0 + B ^ qn0 *
+                (if (if N / B ^ s / B ^ qn0 ≥ D0 / B ^ s then 1 else 0) ≠ 0 then N / B ^ s / B ^ qn0 - D0 / B ^ s
+                 else N / B ^ s / B ^ qn0)) 0 true).1)) := by
+      rw [dcDivapprF_succ]
+      simp only [e1]
+      have eD : (if decide (qn0 + 1 < dn0) = true then D0 / B ^ (dn0 - (qn0 + 1)) else D0) = D0 / B ^ s := by
+        by_cases h : qn0 + 1 < dn0
+        · simp only [h, decide_true, if_true]
+          rw [if_pos h] at hdn
+          congr 2; omega
+        · simp only [h, decide_false]
+          rw [if_neg h] at hdn
+          have : s = 0 := by omega
+          rw [this, pow_zero, Nat.div_one]; simp
+      have edn : (if decide (qn0 + 1 < dn0) = true then qn0 + 1 else dn0) = dn := by
+        rw [hdn]; by_cases h : qn0 + 1 < dn0 <;> simp [h]
+      rw [eD, edn]
+      have e2 : dn0 + qn0 - dn = s + qn0 := by omega
+      rw [e2, Nat.add_sub_cancel, ← div_pow_add]
+    rw [ecall]
+    obtain ⟨c1, c2, c3, c4, c5, c6, c7, c8⟩ := hcore
+    unfold CallSpec
+    simp only [e1]
+    rw [← hdn]
+    have es : dn0 - dn = s := by omega
+    rw [es]
+    refine ⟨c1, c2, c3, c4, c6, c7, ?_⟩
+    intro hcut hpre
+    have hq0 : (if N / B ^ s / B ^ qn0 ≥ D0 / B ^ s then 1 else 0) = 0 := by
+      rw [if_neg (by omega)]
+    rw [if_pos hcut] at hdn
+    exact ⟨by rw [c5]; exact hq0, c8 hdn hq0⟩
+
 end Mpir.DcDivappr
